@@ -263,7 +263,11 @@ endstruc
         lea     tmp3, [n - 1]
         shl     tmp3, 4
         add     tmp, tmp3
-        vmovdqu xmm1, [tmp] ;; load last block
+        ;; load only the r valid bytes of the last (partial) block
+        mov     tmp3, 0xffff
+        bzhi    tmp3, tmp3, r
+        kmovq   k1, tmp3
+        vmovdqu8 xmm1{k1}{z}, [tmp] ;; load last block
 
         ;; get mask for padding
 %ifndef LINUX
